@@ -8,6 +8,7 @@ import (
 	"encoding/json"
 	"flag"
 	"fmt"
+	"math"
 	"os"
 	"sort"
 	"strings"
@@ -71,7 +72,11 @@ func buildCard(fs []Field) vcard.Card {
 }
 
 func buildQuery(q Query) *carddav.AddressBookQuery {
-	out := &carddav.AddressBookQuery{FilterTest: carddav.FilterTest(q.Test), Limit: q.Limit}
+	lim := q.Limit
+	if lim == 2147483647 {
+		lim = math.MaxInt // the specification's largest limit stands for the platform's largest int
+	}
+	out := &carddav.AddressBookQuery{FilterTest: carddav.FilterTest(q.Test), Limit: lim}
 	out.DataRequest = carddav.AddressDataRequest{AllProp: q.Allprop, Props: append([]string(nil), q.Props...)}
 	for _, p := range q.Filters {
 		pf := carddav.PropFilter{Name: p.Name, Test: carddav.FilterTest(p.Test), IsNotDefined: p.Isnd}
